@@ -6,7 +6,7 @@ from vf import H, C, M
 MODULES = [M("ohkami/src/fang/builtin/basicauth.rs", "harness/C13/basicauth.rs")]
 CONTRACTS = []
 QUICK = {1, 5, 9, 13, 17, 0, 2, 3, 33, 37, 53, 49, 73, 69}
-HARNESSES = [H(f"c13_basicauth_contract_k{k:02d}", crate="ohkami", strength="bounded", timeout=900, tier="quick" if k in QUICK else "thorough",
+HARNESSES = [H(f"c13_basicauth_contract_k{k:02d}", crate="ohkami", strength="bounded", timeout=900, unwindset={"memchr_naive": 6, "memchr_aligned": 3, "memcmp": 12, "CharSearcher": 6, "spec_utf8": 14, "try_fold": 4}, tier="quick" if k in QUICK else "thorough",
                functions=["<BasicAuth<S> as FangAction>::fore", "<[BasicAuth<S>; 2] as FangAction>::fore", "BasicAuth::matches", "basic_credential_of", "unauthorized"],
                clauses=["Ok(()) iff the Authorization value starts with `Basic `, decoding succeeded, the credential contains ':' and (text before the FIRST colon, text after it) equals a configured pair exactly",
                         "otherwise 401 with a `WWW-Authenticate: Basic` challenge"],
